@@ -1273,6 +1273,25 @@ example : (run (primsCountTotalC2c T0 {}) (relEnv ⟨.start, .count, .c2c⟩ 1 3
     (run (primsCountTotalC2c T0 { count := some 4 }) (relEnv ⟨.count, .total, .c2c⟩ 1 8 2) body_count_total_c2c).toOption
       = some 4 := by decide +kernel
 
+/-- The solver contract stated on the source: the function the body of `get_c2c_expansion__count__start_size` /
+    `…__count__end_size` hands to `scipy.optimize.brentq` (`fexp`, as *translated* from the current source and evaluated
+    exactly by `solverFn` at a rational point `c ≠ 1`) has a value `y`, and the validator of the `brentq` slot
+    (`rootOK`, used by the model and by `T_C03_translated_c2c`) says exactly: the returned ratio is positive and
+    `|size · y| ≤ ε · length` — the residual of the translated function, scaled by the cell size. -/
+theorem T_C03_translated_solver_fn {ε L x c : ℚ} {n : ℕ} (hx : x ≠ 0) (hc : c ≠ 1) :
+    (∃ y, solverFn (relEnv ⟨.c2c, .count, .start⟩ L n x) body_c2c_count_start c = .ok y ∧
+      rootOK ε x c L n = (decide (0 < c) && decide (absR (x * y) ≤ ε * L))) ∧
+    (n ≠ 0 → c ≠ 0 → ∃ y, solverFn (relEnv ⟨.c2c, .count, .end_⟩ L n x) body_c2c_count_end c = .ok y ∧
+      rootOK ε x (1 / c) L n = (decide (0 < c) && decide (absR (x * y) ≤ ε * L))) :=
+  ⟨⟨_, solverFn_c2c_count_start hx hc, rootOK_start_resid hx hc⟩,
+   fun hn hc0 => ⟨_, solverFn_c2c_count_end hn hx hc hc0, rootOK_end_resid hn hx hc hc0⟩⟩
+
+/-- the translated `fexp` evaluates: 3 cells of first size 1/7 on a unit edge have the root 2 (residual 0), not 3 -/
+example : (solverFn (relEnv ⟨.c2c, .count, .start⟩ 1 3 (1 / 7)) body_c2c_count_start 2).toOption = some 0 ∧
+    (solverFn (relEnv ⟨.c2c, .count, .start⟩ 1 3 (1 / 7)) body_c2c_count_start 3).toOption = some 6 ∧
+    (solverFn (relEnv ⟨.c2c, .count, .end_⟩ 1 3 (4 / 7)) body_c2c_count_end 2).toOption = some 0 ∧
+    rootOK 0 (1 / 7) 2 1 3 = true ∧ rootOK 0 (1 / 7) 3 1 3 = false := by decide +kernel
+
 /-- `Chop.invert`, statement by statement as the source has it now (tuple swap of the sizes, `1 / c2c_expansion` and
     `1 / total_expansion` under their `is not None` tests, the `preserve` field moved to the other end — in this order):
     run on any parameter record it yields the model's `invert` and `swapPreserve`, and when a reciprocal raises
